@@ -71,7 +71,7 @@ def suite_perm(ctx, case):
     names = names[:n]
     def build_named(lst, order):
         """a System whose type list is the list OBJECT `lst`; position q of the list carries the species `order[q]` of `sd`"""
-        z = pyPRISM.System(lst, kT=sd['kT']); z.domain = pyPRISM.Domain(length=L, dr=sd['dom'][1])
+        z = pyPRISM.System(lst, kT=sd['kT']); z.domain = G.mk_domain(sd)
         for q in range(n):
             z.density[lst[q]] = sd['dens'][order[q]]; z.diameter[lst[q]] = sd['diam'][order[q]]
         for (i, j) in G.pairs_of(n):
